@@ -143,6 +143,8 @@ type Run struct {
 	assume     []string
 	extra      map[string]interface{}
 	vioClasses map[string]int
+	child      bool
+	pending    []pendingViolation
 }
 
 // Start reads tier from argv[1] (or VERIF_TIER) and seed from VERIF_SEED.
@@ -262,6 +264,14 @@ func (r *Run) Inconclusive(format string, a ...interface{}) {
 func (r *Run) Violation(class, what string, replay interface{}) {
 	r.mu.Lock()
 	defer r.mu.Unlock()
+	if r.child {
+		r.violations++
+		r.vioClasses[class]++
+		if r.vioClasses[class] <= 3 {
+			r.pending = append(r.pending, pendingViolation{class, what, replay})
+		}
+		return
+	}
 	for _, k := range r.known {
 		if k.Property != r.ID || k.Status != "known" {
 			continue
